@@ -212,12 +212,16 @@ def wire_consts(prog):
     for nm, path in (("MTU_BYTES", NET + "MTU_BYTES"), ("MAX_DATA_PER_SHRED", A + "shredder::MAX_DATA_PER_SHRED"), ("TOTAL_SHREDS", A + "shredder::TOTAL_SHREDS"),
                      ("MAX_SLICES_PER_BLOCK", A + "types::slice_index::MAX_SLICES_PER_BLOCK"), ("MAX_SIGNERS", A + "crypto::aggsig::MAX_SIGNERS"),
                      ("UNCOMPRESSED_SIG_SIZE", A + "crypto::aggsig::UNCOMPRESSED_SIG_SIZE"), ("MAX_TRANSACTION_SIZE", A + "MAX_TRANSACTION_SIZE"),
-                     ("MAX_MERKLE_TREE_HEIGHT", A + "crypto::merkle::MAX_MERKLE_TREE_HEIGHT")):
+                     ("MAX_MERKLE_TREE_HEIGHT", A + "crypto::merkle::MAX_MERKLE_TREE_HEIGHT"), ("MAX_DATA_PER_SLICE", A + "shredder::MAX_DATA_PER_SLICE")):
         consts[nm] = prog.const_int(path)
     return consts
 
 
 def check(run, prefix="O19"):
+    from . import detectors as _DN
+    _DN.ob_new_fields(run, prefix + ".8", ['network::', 'crypto::aggsig', 'crypto::signature'], 'decoders and the network front ends are stateless per datagram')
+    from . import detectors as _DS
+    _DS.ob_structural_impls(run, prefix + ".7", ['crypto::', 'types::', 'consensus::vote', 'consensus::cert', 'shredder::', 'repair::'], "round trip is stated with the types' own equality; decoders of bounded indices rely on the order of the index types")
     P = prefix
     prog = run.program("lib")
     consts = wire_consts(prog)
@@ -235,6 +239,20 @@ def check(run, prefix="O19"):
         cfg = " ".join(c.callee_args for c in b.calls())
         m = re.search(r"Configuration<true, (\d+)", cfg)
         o.check(bool(m) and int(m.group(1)) == consts["MTU_BYTES"], "network::deserialize|prealloc-cap", "preallocation limit of the decoder config == MTU_BYTES (%s)" % consts["MTU_BYTES"], b.span, {"config": m.group(0) if m else None})
+    # the other decoders - of data that arrives inside validated shreds, not as a datagram - must admit everything a slice may carry: their
+    # preallocation limit is the slice limit, not the datagram limit (wincode charges len * size_of::<T>() against it before reading)
+    slice_max = consts.get("MAX_DATA_PER_SLICE")
+    for fn, what in ((A + "consensus::blockstore::slot_block_data::BlockData::try_reconstruct_block", "the transaction list of a slice"),
+                     ("<" + A + "types::slice::SlicePayload as core::convert::TryFrom<&[u8]>>::try_from", "a slice payload")):
+        fb = prog.body(fn)
+        if fb is None:
+            o.missing(fn)
+            continue
+        ds = [c for c in fb.calls() if "deserialize" in c.name and (c.name.startswith("wincode::") or c.name.startswith(NET))]
+        m2 = re.search(r"Configuration<true, (\d+)", " ".join(c.callee_args for c in ds))
+        ok = len(ds) == 1 and ds[0].name.endswith("deserialize_exact") and ds[0].name.startswith("wincode::") and bool(m2) and slice_max is not None and int(m2.group(1)) >= slice_max
+        o.check(ok, "%s|slice-decoder-limit" % fshort(fn), "%s is decoded exactly, with a preallocation limit >= MAX_DATA_PER_SLICE (%s)" % (what, slice_max), ds[0].span if ds else fb.span,
+                {"calls": [c.name for c in ds], "limit": m2.group(1) if m2 else None})
     recv = [x for d, x in prog.bodies.items() if d.endswith("Network>::receive") and d.startswith("<" + NET)]
     if len(recv) < 2:
         o.missing("Network::receive impls (UdpNetwork, SimulatedNetwork)")
